@@ -768,6 +768,27 @@ func translateVariant(v variant) (xlate.Result, []string, string) {
 	return res, rec.names, ""
 }
 
+// templateNames: the bare words of a shape's template (variables, aliases, keywords).
+func templateNames(sh *shape) map[string]bool {
+	out := map[string]bool{}
+	word := ""
+	flush := func() {
+		if word != "" {
+			out[word] = true
+			word = ""
+		}
+	}
+	for _, r := range strings.ReplaceAll(sh.Tpl, mark, " ") {
+		if r == '_' || r >= '0' && r <= '9' || r >= 'a' && r <= 'z' || r >= 'A' && r <= 'Z' {
+			word += string(r)
+		} else {
+			flush()
+		}
+	}
+	flush()
+	return out
+}
+
 func oracle(c Case) (evid.Info, error) {
 	sh := shapeIndex[c.Shape]
 	if sh == nil {
@@ -787,6 +808,12 @@ func oracle(c Case) (evid.Info, error) {
 		}
 		if c.Style == "bare" && !isBareName(v) {
 			info.Skip = "not a bare name"
+			return info, nil
+		}
+		if (sh.Pos == "var" || sh.Pos == "alias") && templateNames(sh)[v] {
+			// a variable or alias spelled like another name of the template is another query (a duplicate column, a
+			// shadowed variable, a shape that no longer qualifies for a lowering), not the same query with another name
+			info.Skip = "value is a name the template already uses"
 			return info, nil
 		}
 	}
